@@ -231,4 +231,189 @@ example : (match findResOf true true (denOps (.mk .map [] [.mk .scalar ['a'] [],
     | .err .lookup => true
     | _ => false) = true := by decide
 
+/-! ### the compiled AST denotes what spec B says -/
+
+theorem kidsAt_length (root : Node) (el : Pos) :
+    (kidsAt root el).length = (nodeAt root el).kids.length := by
+  unfold kidsAt nodeAt
+  cases root.get? el <;> rfl
+
+theorem findName_eq (s : Str) : ∀ kids : List Node,
+    findName s kids =
+      (let i := kids.findIdx (fun k => k.name == s); if i < kids.length then some i else none)
+  | [] => by simp [findName]
+  | k :: r => by
+    simp only [findName, List.findIdx_cons, List.length_cons]
+    by_cases h : (k.name == s) = true
+    · simp [h]
+    · simp only [h, Bool.false_eq_true, if_false, cond_false, findName_eq s r]
+      by_cases h2 : List.findIdx (fun k => k.name == s) r < r.length
+      · simp [h2]
+      · simp [h2]
+
+theorem indexAt_eq_childNamed (root : Node) (el : Pos) (s : Str) :
+    indexAt root el (some s) = childNamed (nodeAt root el) s := by
+  unfold indexAt nodeAt
+  cases hg : root.get? el with
+  | none => simp [childNamed, Node.kind]
+  | some n =>
+    simp only [Option.getD_some]
+    unfold Node.index childNamed
+    cases hk : n.kind with
+    | scalar => rfl
+    | map => simp only [findName_eq]
+    | list =>
+      show (match pyInt s with | none => none | some i => pyListIndex n.kids.length i)
+        = (pyInt s).bind (pyListIndex n.kids.length)
+      cases pyInt s <;> rfl
+    | array =>
+      show (match pyInt s with | none => none | some i => pyListIndex n.kids.length i)
+        = (pyInt s).bind (pyListIndex n.kids.length)
+      cases pyInt s <;> rfl
+
+theorem stepDen_onlyLookup (root : Node) (strict : Bool) (s : Step) (el : Pos) :
+    OnlyLookup (stepDen root strict s el) := by
+  intro e h
+  unfold stepDen at h
+  cases s with
+  | up => simp at h
+  | here => simp at h
+  | name nm =>
+    simp only at h
+    split at h
+    · simp at h
+    · split at h <;> simp at h; exact h.symm
+  | negidx k => simp at h
+  | slice a b c => simp at h
+
+theorem compileStep_stepOk (s : Step) (h : s.wf = true) : Op.stepOk (compileStep s) = true := by
+  cases s with
+  | up => rfl
+  | here => rfl
+  | name _ => rfl
+  | negidx n => simp only [compileStep]; split <;> rfl
+  | slice a b c =>
+    match a, b, c, h with
+    | none, none, none, _ => rfl
+    | none, none, some none, _ => rfl
+    | none, none, some (some v), h => simpa [compileStep, Op.stepOk, Step.wf] using h
+    | some _, none, none, _ => rfl
+    | none, some _, none, _ => rfl
+    | some _, some _, none, _ => rfl
+    | some _, none, some none, _ => rfl
+    | none, some _, some none, _ => rfl
+    | some _, some _, some none, _ => rfl
+    | some _, none, some (some v), h => simpa [compileStep, Op.stepOk, Step.wf] using h
+    | none, some _, some (some v), h => simpa [compileStep, Op.stepOk, Step.wf] using h
+    | some _, some _, some (some v), h => simpa [compileStep, Op.stepOk, Step.wf] using h
+
+theorem compile_noZero (steps : List Step) (h : steps.all Step.wf = true) :
+    NoZero (steps.map compileStep) = true := by
+  induction steps with
+  | nil => rfl
+  | cons s r ih =>
+    simp only [List.all_cons, Bool.and_eq_true] at h
+    simp only [NoZero, List.map_cons, List.all_cons, Bool.and_eq_true]
+    exact ⟨compileStep_stepOk s h.1, ih h.2⟩
+
+/-- a slice op evaluates to the continuation applied to the selected children -/
+theorem denOps_slice (root : Node) (strict : Bool) (a b c : Option Int) (hc : (c == some 0) = false)
+    (r : List Op) (el : Pos) :
+    denOps root strict (.slice a b c :: r) el =
+      flatMapM (denOps root strict r) ((pySlice (nodeAt root el).kids.length a b c).map (fun i => el ++ [i])) := by
+  simp only [denOps, hc, kidsAt_length]
+  rfl
+
+/-- one step of the AST, compiled, = the step's denotation followed by the rest -/
+theorem denOps_step (root : Node) (strict : Bool) (s : Step) (hs : s.wf = true) (r : List Op) (el : Pos) :
+    denOps root strict (compileStep s :: r) el
+      = andThen (stepDen root strict s el) (flatMapM (denOps root strict r)) := by
+  cases s with
+  | up => simp only [compileStep, denOps, stepDen, andThen_ok, flatMapM_singleton]
+  | here => simp only [compileStep, denOps, stepDen, andThen_ok, flatMapM_singleton]
+  | name nm =>
+    simp only [compileStep, denOps, stepDen, indexAt_eq_childNamed]
+    cases childNamed (nodeAt root el) nm with
+    | some i => simp only [andThen_ok, flatMapM_singleton]
+    | none => cases strict <;> simp
+  | negidx k =>
+    have hA : compileStep (.negidx k) = .slice (negA k) (negB k) none := by
+      simp only [compileStep, negA, negB]
+      by_cases hk : k = 1
+      · subst hk; simp
+      · simp [hk]
+    rw [hA, denOps_slice _ _ _ _ _ (by rfl), pySlice_negidx]
+    simp only [stepDen, andThen_ok]
+  | slice a b c =>
+    simp only [stepDen, andThen_ok]
+    match a, b, c, hs with
+    | none, none, none, _ => rw [compileStep, denOps_slice _ _ _ _ _ (by rfl)]; rfl
+    | none, none, some none, _ => rw [compileStep, denOps_slice _ _ _ _ _ (by rfl)]; rfl
+    | none, none, some (some v), h =>
+      have hv : (some v == some (0 : Int)) = false := by simpa [Step.wf] using h
+      simp only [compileStep, Option.getD_some]
+      rw [denOps_slice _ _ _ _ _ hv]; rfl
+    | some x, none, none, _ => simp only [compileStep, Option.getD_some]; rw [denOps_slice _ _ _ _ _ (by rfl)]; rfl
+    | none, some y, none, _ =>
+      simp only [compileStep, Option.getD_none]
+      rw [denOps_slice _ _ _ _ _ (by rfl), pySlice_start_zero]; rfl
+    | some x, some y, none, _ => simp only [compileStep, Option.getD_some]; rw [denOps_slice _ _ _ _ _ (by rfl)]; rfl
+    | some x, none, some none, _ =>
+      simp only [compileStep, Option.getD_none]
+      rw [denOps_slice _ _ _ _ _ (by decide), pySlice_stride_one]; rfl
+    | none, some y, some none, _ =>
+      simp only [compileStep, Option.getD_none]
+      rw [denOps_slice _ _ _ _ _ (by decide), pySlice_stride_one]; rfl
+    | some x, some y, some none, _ =>
+      simp only [compileStep, Option.getD_none]
+      rw [denOps_slice _ _ _ _ _ (by decide), pySlice_stride_one]; rfl
+    | some x, none, some (some v), h =>
+      have hv : (some v == some (0 : Int)) = false := by simpa [Step.wf] using h
+      simp only [compileStep, Option.getD_some]
+      rw [denOps_slice _ _ _ _ _ hv]; rfl
+    | none, some y, some (some v), h =>
+      have hv : (some v == some (0 : Int)) = false := by simpa [Step.wf] using h
+      simp only [compileStep, Option.getD_some]
+      rw [denOps_slice _ _ _ _ _ hv]; rfl
+    | some x, some y, some (some v), h =>
+      have hv : (some v == some (0 : Int)) = false := by simpa [Step.wf] using h
+      simp only [compileStep, Option.getD_some]
+      rw [denOps_slice _ _ _ _ _ hv]; rfl
+
+theorem flatMapM_pure {α : Type} : ∀ xs : List α, flatMapM (fun x => (.ok [x] : Except Err (List α))) xs = .ok xs
+  | [] => rfl
+  | x :: xs => by simp [flatMapM, flatMapM_pure xs]
+
+/-- depth-first on the compiled steps = spec B's step-by-step reading over the whole selection -/
+theorem denOps_steps (root : Node) (strict : Bool) :
+    ∀ (steps : List Step), steps.all Step.wf = true → ∀ cur : List Pos,
+      flatMapM (denOps root strict (steps.map compileStep)) cur = denoteSteps root strict steps cur
+  | [], _, cur => by
+    simp only [List.map_nil, denoteSteps]
+    have : denOps root strict [] = fun el => .ok [el] := funext (fun el => by simp [denOps])
+    rw [this, flatMapM_pure]
+  | s :: r, hwf, cur => by
+    simp only [List.all_cons, Bool.and_eq_true] at hwf
+    have hfun : denOps root strict ((s :: r).map compileStep)
+        = fun el => andThen (stepDen root strict s el) (flatMapM (denOps root strict (r.map compileStep))) :=
+      funext (fun el => by rw [List.map_cons, denOps_step root strict s hwf.1])
+    rw [hfun, flatMapM_bind _ _ (stepDen_onlyLookup root strict s)
+      (denOps_onlyLookup root strict _ (compile_noZero r hwf.2))]
+    simp only [denoteSteps]
+    cases flatMapM (stepDen root strict s) cur with
+    | error e => rfl
+    | ok next => simp only [andThen_ok]; exact denOps_steps root strict r hwf.2 next
+
+/-- **compiled AST = denotation**, for every well-formed AST (no `Canon` needed) -/
+theorem denOps_compile (root : Node) (strict : Bool) (p : Spec.Path) (hwf : p.steps.all Step.wf = true)
+    (el : Pos) :
+    denOps root strict (compile p) el = denote p root el strict := by
+  unfold compile denote
+  have h := denOps_steps root strict p.steps hwf [if p.top then [] else el]
+  rw [flatMapM_singleton] at h
+  rw [← h]
+  cases p.top with
+  | true => simp [denOps]
+  | false => simp
+
 end Flatland.C14.Proofs
